@@ -1057,7 +1057,93 @@ pub fn run_all(ctx: &Ctx, mon: &dyn Monitor, depth: usize, wdepth: usize, small_
     (jobs, cnt)
 }
 
+/// Whole-domain sweeps: every lead surrogate x a few trail surrogates joined by both WTF-8 push paths
+/// (inline and heap left operand), and every Unicode scalar value through the UTF-8 character paths.
+pub fn domain_sweeps(ctx: &Ctx) -> u64 {
+    use rayon::prelude::*;
+    fn surr(cp: u32) -> [u8; 3] {
+        [0xE0 | (cp >> 12) as u8, 0x80 | ((cp >> 6) & 0x3F) as u8, 0x80 | (cp & 0x3F) as u8]
+    }
+    let n = AtomicU64::new(0);
+    (0xD800u32..=0xDBFF).into_par_iter().for_each(|lead| {
+        for trail in [0xDC00u32, 0xDC01, 0xDD55, 0xDE00, 0xDFFE, 0xDFFF] {
+            for prefix in ["", "a", "abcdefghij"] {
+                for via_tendril in [false, true] {
+                    let mut left = prefix.as_bytes().to_vec();
+                    left.extend_from_slice(&surr(lead));
+                    let mut right = surr(trail).to_vec();
+                    right.extend_from_slice(b"z");
+                    let mut model = left.clone();
+                    <fmt::WTF8 as FmtX>::m_push(&mut model, &right);
+                    n.fetch_add(1, Ordering::Relaxed);
+                    let r = guarded(|| {
+                        let mut t = Tendril::<fmt::WTF8, NonAtomic>::try_from_byte_slice(&left).map_err(|_| "left rejected")?;
+                        if via_tendril {
+                            let o = Tendril::<fmt::WTF8, NonAtomic>::try_from_byte_slice(&right).map_err(|_| "right rejected")?;
+                            t.push_tendril(&o);
+                        } else {
+                            t.try_push_bytes(&right).map_err(|_| "push rejected")?;
+                        }
+                        Ok::<Vec<u8>, &'static str>(t.as_bytes().to_vec())
+                    });
+                    let w = format!("sweep WTF8 lead=U+{lead:04X} trail=U+{trail:04X} prefix={prefix:?} via_tendril={via_tendril}");
+                    match r {
+                        Ok(Ok(got)) if got == model => {},
+                        Ok(Ok(got)) => {
+                            ctx.violation("content", &w, json!({"message": format!("tendril {got:02X?} model {model:02X?}")}));
+                        },
+                        Ok(Err(e)) => {
+                            ctx.violation("rejected-valid", &w, json!({"message": e}));
+                        },
+                        Err(p) => {
+                            ctx.violation("panic", &w, json!({"message": p}));
+                        },
+                    }
+                }
+            }
+        }
+    });
+    (0u32..=0x10FFFF).into_par_iter().for_each(|cp| {
+        let Some(c) = char::from_u32(cp) else { return };
+        n.fetch_add(1, Ordering::Relaxed);
+        let r = guarded(|| {
+            let mut out = vec![];
+            let a = tendril::StrTendril::from_char(c);
+            out.push(a.to_string());
+            for prefix in ["", "abcdef", "abcdefg", "abcdefgh"] {
+                let mut t = tendril::StrTendril::from_slice(prefix);
+                t.push_char(c);
+                t.push_char('!');
+                out.push(t.to_string());
+                let mut u = t.clone();
+                out.push(format!("{:?}", u.pop_front_char()));
+                out.push(u.to_string());
+            }
+            out
+        });
+        let mut want = vec![c.to_string()];
+        for prefix in ["", "abcdef", "abcdefg", "abcdefgh"] {
+            let s = format!("{prefix}{c}!");
+            want.push(s.clone());
+            want.push(format!("{:?}", s.chars().next()));
+            want.push(s.chars().skip(1).collect());
+        }
+        let w = format!("sweep UTF8 char U+{cp:04X}");
+        match r {
+            Ok(got) if got == want => {},
+            Ok(got) => {
+                ctx.violation("content", &w, json!({"message": format!("tendril {got:?} model {want:?}")}));
+            },
+            Err(p) => {
+                ctx.violation("panic", &w, json!({"message": p}));
+            },
+        }
+    });
+    n.load(Ordering::Relaxed)
+}
+
 pub fn main(ctx: &Ctx) -> ! {
+    let sweeps = domain_sweeps(ctx);
     let (depth, wdepth, small) = ctx.tier.pick((4, 3, 4), (5, 4, 4));
     let (jobs, cnt) = run_all(ctx, &NoMonitor, depth, wdepth, small);
     let shapes = cnt.shapes.lock().unwrap().len();
@@ -1075,6 +1161,7 @@ pub fn main(ctx: &Ctx) -> ! {
             "distinct_nontrivial": shapes,
             "rule": "stateless exhaustive DFS over all operation sequences up to the stated depth (no state merging: capacity is invisible), re-executed from scratch; after the last op every live slot must equal its Vec<u8> model, be valid for its format, and every checked op must fail iff the model says so. distinct_nontrivial = distinct (representation class per slot, buffer-sharing matrix) tuples reached.",
             "exhaustive": true,
+            "domain_sweep_evaluations": sweeps,
             "jobs": jobs,
             "samples": [render(&ops, &[0, 9, 20]), render(&ops, &[2, 14, 40, 41]), format!("{:?}", witnesses::<fmt::UTF8>()[4])],
         }),
@@ -1082,6 +1169,10 @@ pub fn main(ctx: &Ctx) -> ! {
 }
 
 pub fn replay_with(ctx: &Ctx, witness: &str, mon: &dyn Monitor) {
+    if witness.starts_with("sweep ") {
+        domain_sweeps(ctx);
+        return;
+    }
     // witness = "<Fmt>/<Atomicity>: op; op; ..."
     let (job, rest) = witness.split_once(": ").unwrap_or(("", witness));
     macro_rules! go {
